@@ -89,8 +89,9 @@ class PolicyModel:
             if not guarded:
                 self.deref.add(name)
             self.guard_quality[name] = self._guard_quality(m)
-            flds = sorted(set(x.attr for x in walk_local(m) if isinstance(x, ast.Attribute) and isinstance(x.value, ast.Name)
-                              and x.value.id == 'rule_set'))
+            rsvars = set(a.targets[0].id for a in walk_local(m) if isinstance(a, ast.Assign) and isinstance(a.targets[0], ast.Name) and '_attribute_rule_sets' in U(a.value))
+            flds = sorted(set(x.attr for x in walk_local(m) if isinstance(x, ast.Attribute) and ((isinstance(x.value, ast.Name) and x.value.id in rsvars)
+                                                                                                or (isinstance(x.value, (ast.Call, ast.Subscript)) and '_attribute_rule_sets' in U(x.value)))))
             self.query_field[name] = flds
 
     def _guard_quality(self, m):
